@@ -2,7 +2,10 @@
 // SPDX-License-Identifier: Apache-2.0
 
 use std::mem::{size_of, MaybeUninit};
+#[cfg(not(clock_bound_verif))]
 use std::sync::atomic;
+#[cfg(clock_bound_verif)]
+use crate::verif_shim::atomic;
 
 use crate::{syserror, ShmError};
 
